@@ -68,6 +68,13 @@ theorem fsops_touch (fs : IFs) (sop : SOp) : ∀ op ∈ fsops fs sop, ∀ q ∈ 
     intro op ho q hq
     simp only [fsops, List.mem_singleton] at ho; subst ho; simp [touches] at hq
 
+theorem tornOp_touch (j : Nat) (op : IOp) : ∀ o ∈ tornOp j op, ∀ q ∈ touches o, q ∈ touches op := by
+  cases op <;> simp [tornOp, touches]
+
+theorem close_torn_nil (fs : IFs) (k : Key) (last : Bool) (n j : Nat) :
+    (((fsops fs (.close k last))[n]?).map (tornOp j)).getD [] = [] := by
+  cases last <;> rcases n with _ | _ | _ | _ | n <;> simp [fsops, tornOp]
+
 theorem run_pwrite_same (fs : IFs) (p : Path) (f : File) (h : fs p = some f) (o : Nat) (d : Bytes) :
     run fs [.pwrite p o d] p = some (pwrite f o d) := by
   simp [Tahoe.Base.FsOp.run, apply, h, upd]
